@@ -24,6 +24,7 @@ RULE = ("four monitors over all 19 algorithm variants x all partitions x d=1..3:
         "reproduce its solo sequence; (sandwich) X, then another instance of the same class on an equal-valued domain, then "
         "X again: the two X runs must be identical; non-trivial = >= 50 points compared")
 ASSUMPTIONS = [
+    "process-wide settings (np.geterr, np print options, recursion limit, number of warnings filters) changed by a run count as influence on other instances: they are the channel through which one instance reaches all others",
     "interleaving of RNG-consuming configurations saves/restores NumPy's global state per instance (stronger than the property requires: it asks for RNG-free partitions in the interleaving part)",
     "cases are generated where the documented loop completes (known findings of C01 excluded)",
     "a foreign entropy source bound at import time (from random import random) is seen through Python's global random state and through the twin runs, not through the call counters",
